@@ -8,8 +8,10 @@
    (Message.dump / Message.load restricted to what these messages need).
 
    TWO variants of the float-using functions live here:
-   * the plain names mirror the code AFTER the proposed repairs fixes/c15-duration-integer.patch
-     and fixes/c15-json-forms.patch (integer arithmetic; DESIGN section 5, F7) - these are what the
+   * the plain names mirror the code AFTER the repairs fixes/c15-duration-integer.patch and
+     fixes/c15-json-forms.patch (integer arithmetic; DESIGN section 5, F7; landed in /repo as the
+     fix commits "Duration <-> timedelta conversion in integer arithmetic" and "Duration JSON is
+     written and read without floats; Timestamp fraction taken in UTC") - these are what the
      correspondence check compares with the live tree and what the positive theorems are about;
    * the names ending in [_pinned] mirror the code of the pinned commit, which computes through
      Python floats.  binary64 arithmetic is modelled EXACTLY over Z ([rn]: round-to-nearest-even of a
